@@ -888,6 +888,18 @@ func (env *specEnv) call(x *Expr) (Val, error) {
 		}
 		k, _ := strconv.Atoi(vs[0].T[0].S)
 		return env.callArg(k)
+	case "fresh":
+		// fresh(x): the reference / slice backing array / map x is nil or was allocated during this call (so writing
+		// through it cannot violate the function's frame)
+		vs, err := evalArgs()
+		if err != nil {
+			return Val{}, err
+		}
+		if len(vs[0].T) == 0 || e.cur.topAct == nil || e.cur.topAct.entry == nil {
+			return Val{}, fmt.Errorf("fresh() needs a reference, slice or map")
+		}
+		r := vs[0].T[0]
+		return boolVal(or(eq(r, intLit(0)), app(SBool, ">=", r, e.cur.topAct.entry.alloc))), nil
 	case "noalias":
 		// noalias(p1, ..., pn): the non-nil references among the arguments are pairwise different
 		vs, err := evalArgs()
@@ -1042,6 +1054,37 @@ func (env *specEnv) call(x *Expr) (Val, error) {
 			if err != nil {
 				return Val{}, err
 			}
+			if types.IsInterface(rv.Typ) {
+				// interface method: only through a pure extern contract "pkg.Iface.Method"
+				iname := "interface." + f.Name
+				if n, ok := rv.Typ.(*types.Named); ok {
+					iname = n.Obj().Name() + "." + f.Name
+					if n.Obj().Pkg() != nil {
+						iname = n.Obj().Pkg().Name() + "." + iname
+					}
+				}
+				xs := e.externs[iname]
+				if xs == nil || !xs.Pure {
+					return Val{}, fmt.Errorf("interface method %s needs a pure extern contract to be used in a spec", iname)
+				}
+				vs, err := evalArgs()
+				if err != nil {
+					return Val{}, err
+				}
+				var rtyp types.Type
+				if m := interfaceMethod(rv.Typ, f.Name); m != nil {
+					res := m.Type().(*types.Signature).Results()
+					rtyp = res
+					if res.Len() == 1 {
+						rtyp = res.At(0).Type()
+					}
+				}
+				if rtyp == nil {
+					return Val{}, fmt.Errorf("no method %s on %v", f.Name, rv.Typ)
+				}
+				e.cur.externsUsed[xs.Name] = true
+				return env.a.pureUF(xs.Name, append([]Val{rv}, vs...), rtyp, env.st), nil
+			}
 			fn = e.methodByName(rv.Typ, f.Name)
 			if fn == nil {
 				return Val{}, fmt.Errorf("unknown method %s on %v", f.Name, rv.Typ)
@@ -1066,6 +1109,19 @@ func (env *specEnv) call(x *Expr) (Val, error) {
 		vs = append([]Val{*recv}, vs...)
 	}
 	return env.applyGoFunc(fn, vs)
+}
+
+func interfaceMethod(t types.Type, name string) *types.Func {
+	it, ok := t.Underlying().(*types.Interface)
+	if !ok {
+		return nil
+	}
+	for i := 0; i < it.NumMethods(); i++ {
+		if it.Method(i).Name() == name {
+			return it.Method(i)
+		}
+	}
+	return nil
 }
 
 func (e *Engine) methodByName(t types.Type, name string) *ssa.Function {
@@ -1339,7 +1395,7 @@ func (env *specEnv) havocTarget(x *Expr, st *State) error {
 	}
 	if x.Op == "call" && x.Args[0].Op == "ident" && x.Args[0].Name == "all" {
 		for _, arg := range x.Args[1:] {
-			hs := e.heapsMatching(arg.String())
+			hs := env.readsHeaps(arg.String()) // pkg.Type.field or elems(T)
 			if len(hs) == 0 {
 				return fmt.Errorf("no heap family matches %s", arg)
 			}
